@@ -1,14 +1,26 @@
 (* Properties/C10.v - IDNA ToASCII output properties.  Only statements, closed by `exact`.
-   Unproved full-strength statements: C10_ascii_statement, C10_idem_statement, C10_case_statement
-   (Proofs/Idna_Hyp.v); see theorem_notes in tools/props_d/C10.py. *)
+   C10_ascii_statement (Proofs/Idna_Hyp.v) is proved for all inputs relative to the adapter premise NvNoTrunc
+   (C10_ascii) and refuted without it (C10_ascii_unconditional_refuted).
+   Unproved full-strength statements: C10_idem_statement, C10_case_statement (Proofs/Idna_Hyp.v);
+   see theorem_notes in tools/props_d/C10.py. *)
 From RU Require Import Base.Prelude Base.Utf8 Base.U32_c13 Gen.Tables Model.Punycode Model.Uts46
-  Proofs.Idna_Sim Proofs.Idna_Api Proofs.Idna_Known Proofs.Idna_Hyp Proofs.Idna_Tables.
+  Proofs.Idna_Sim Proofs.Idna_Api Proofs.Idna_Known Proofs.Idna_Hyp Proofs.Idna_Tables Proofs.Idna_Redisc
+  Proofs.Idna_C10_Deny Proofs.Idna_C10_Prefix Proofs.Idna_C10_Inner Proofs.Idna_C10_Walk Proofs.Idna_C10_Config.
 
 (* a borrowed result is the input *)
 Theorem C10_borrow : forall A cfg d deny hy dns r, to_ascii A cfg d deny hy dns = Ok (true, r) -> r = d.
 Proof. exact to_ascii_borrow. Qed.
 Check C10_borrow : forall A cfg d deny hy dns r, to_ascii A cfg d deny hy dns = Ok (true, r) -> r = d.
 Print Assumptions C10_borrow.
+
+(* fixed point, the Borrowed results: a borrowed result is returned unchanged (and borrowed) by the same operation;
+   the Owned results are covered by C10_idem_statement only (not proved) *)
+Theorem C10_idem_borrowed : forall A cfg d deny hy dns r,
+  to_ascii A cfg d deny hy dns = Ok (true, r) -> to_ascii A cfg r deny hy dns = Ok (true, r).
+Proof. exact to_ascii_idem_borrowed. Qed.
+Check C10_idem_borrowed : forall A cfg d deny hy dns r,
+  to_ascii A cfg d deny hy dns = Ok (true, r) -> to_ascii A cfg r deny hy dns = Ok (true, r).
+Print Assumptions C10_idem_borrowed.
 
 (* DNS length limits when verification is requested: labels 1..63, total <= 253 without the root dot,
    root dot only in VerifyAllowRootDot *)
@@ -51,6 +63,39 @@ Check C10_entry : forall A cfg d deny s,
      | (PValidityError, _, _) => Err | (PSinkError, _, _) => Panic 569 | (PPanic p, _, _) => Panic p end).
 Print Assumptions C10_entry.
 
+(* entry points, continued: the deprecated Config::to_ascii (all 16 flag sets) is Uts46::to_ascii applied to the
+   transitionally mapped text, with deny list STD3 / EMPTY, hyphens CheckFirstLast / Allow, DNS length
+   VerifyAllowRootDot / Ignore - same verdict, same text, same panic site *)
+Theorem C10_entry_config : forall A cfg c domain, NvNoTrunc A -> usv_list domain ->
+  config_to_ascii A cfg c domain =
+  match to_ascii A cfg (utf8_encode (map_transitional domain (transitional_processing c)))
+          (config_deny_list c) (config_hyphens c)
+          (if cfg_verify_dns_length c then DVerifyAllowRootDot else DIgnore) with
+  | Ok (_, r) => Ok r | Err => Err | Panic p => Panic p end.
+Proof. exact config_to_ascii_agrees. Qed.
+Check C10_entry_config : forall A cfg c domain, NvNoTrunc A -> usv_list domain ->
+  config_to_ascii A cfg c domain =
+  match to_ascii A cfg (utf8_encode (map_transitional domain (transitional_processing c)))
+          (config_deny_list c) (config_hyphens c)
+          (if cfg_verify_dns_length c then DVerifyAllowRootDot else DIgnore) with
+  | Ok (_, r) => Ok r | Err => Err | Panic p => Panic p end.
+Print Assumptions C10_entry_config.
+
+(* the output clause at the other entry points (out_ok deny r: every character of r is ASCII, not upper case,
+   not in deny): domain_to_ascii_cow, domain_to_ascii, domain_to_ascii_strict, deprecated Config::to_ascii *)
+Theorem C10_ascii_entry : forall A cfg, NvNoTrunc A ->
+  (forall d deny b r, bytes d -> valid_deny deny -> domain_to_ascii_cow A cfg d deny = Ok (b, r) -> out_ok deny r) /\
+  (forall s r, usv_list s -> domain_to_ascii A cfg s = Ok r -> out_ok DENY_EMPTY r) /\
+  (forall s r, usv_list s -> domain_to_ascii_strict A cfg s = Ok r -> out_ok DENY_STD3 r) /\
+  (forall c s r, usv_list s -> config_to_ascii A cfg c s = Ok r -> out_ok (config_deny_list c) r).
+Proof. exact entry_points_output. Qed.
+Check C10_ascii_entry : forall A cfg, NvNoTrunc A ->
+  (forall d deny b r, bytes d -> valid_deny deny -> domain_to_ascii_cow A cfg d deny = Ok (b, r) -> out_ok deny r) /\
+  (forall s r, usv_list s -> domain_to_ascii A cfg s = Ok r -> out_ok DENY_EMPTY r) /\
+  (forall s r, usv_list s -> domain_to_ascii_strict A cfg s = Ok r -> out_ok DENY_STD3 r) /\
+  (forall c s r, usv_list s -> config_to_ascii A cfg c s = Ok r -> out_ok (config_deny_list c) r).
+Print Assumptions C10_ascii_entry.
+
 (* ASCII / lower case / fixed point, the fastest tier only *)
 Theorem C10_ascii_partial : forall A cfg d deny hy, bytes d -> fast_tier d d = None ->
   to_ascii A cfg d deny hy DIgnore = Ok (true, d) /\ Forall lower_or_dot d.
@@ -60,6 +105,73 @@ Qed.
 Check C10_ascii_partial : forall A cfg d deny hy, bytes d -> fast_tier d d = None ->
   to_ascii A cfg d deny hy DIgnore = Ok (true, d) /\ Forall lower_or_dot d.
 Print Assumptions C10_ascii_partial.
+
+(* ASCII / lower case / deny-list-free, ALL inputs, every option combination, every deny list the API can build.
+   Only premise about the adapter: NvNoTrunc A = "normalize_validate never returns a proper prefix of its argument"
+   (forall l t, l = normalize_validate A l ++ t -> t = []).  No premise about Punycode, none about to_ascii. *)
+Theorem C10_ascii : forall A cfg, NvNoTrunc A -> forall d deny hy dns b r, bytes d -> valid_deny deny ->
+  to_ascii A cfg d deny hy dns = Ok (b, r) ->
+  Forall (fun c => c < 128 /\ is_upper c = false /\ deny_member deny c = false) r.
+Proof. exact c10_ascii_under_notrunc. Qed.
+Check C10_ascii : forall A cfg, NvNoTrunc A -> forall d deny hy dns b r, bytes d -> valid_deny deny ->
+  to_ascii A cfg d deny hy dns = Ok (b, r) ->
+  Forall (fun c => c < 128 /\ is_upper c = false /\ deny_member deny c = false) r.
+Print Assumptions C10_ascii.
+
+Theorem C10_ascii_rel : forall A cfg, NvNoTrunc A -> C10_ascii_statement A cfg.
+Proof. exact c10_ascii_under_notrunc. Qed.
+Check C10_ascii_rel : forall A cfg, NvNoTrunc A -> C10_ascii_statement A cfg.
+Print Assumptions C10_ascii_rel.
+
+(* the premise cannot be dropped: with an adapter whose normalize_validate truncates, to_ascii(STD3) returns
+   "xn--_-9fa" (borrowed) although '_' is in the STD3 deny list - after_punycode_decode compares the normalised
+   and the decoded text by zip, without a length check *)
+Theorem C10_ascii_unconditional_refuted : exists A cfg, ~ C10_ascii_statement A cfg.
+Proof. exact c10_ascii_unconditional_refuted. Qed.
+Check C10_ascii_unconditional_refuted : exists A cfg, ~ C10_ascii_statement A cfg.
+Print Assumptions C10_ascii_unconditional_refuted.
+
+Theorem C10_ascii_witness :
+  to_ascii trunc1 true W_C10_trunc DENY_STD3 HAllow DVerify = Ok (true, W_C10_trunc) /\
+  deny_member DENY_STD3 95 = true /\
+  to_ascii toy true W_C10_trunc DENY_STD3 HAllow DVerify = Err.
+Proof. exact w_c10_trunc. Qed.
+Check C10_ascii_witness :
+  to_ascii trunc1 true W_C10_trunc DENY_STD3 HAllow DVerify = Ok (true, W_C10_trunc) /\
+  deny_member DENY_STD3 95 = true /\
+  to_ascii toy true W_C10_trunc DENY_STD3 HAllow DVerify = Err.
+Print Assumptions C10_ascii_witness.
+
+(* every deny list the API can build (STD3, or any AsciiDenyList::new value) contains A-Z and none of a-z 0-9 - . *)
+Theorem C10_valid_deny : forall deny, valid_deny deny ->
+  (forall b, is_upper b = true -> deny_member deny b = true) /\
+  (forall c, is_lower c || is_digit c || (c =? 45) || (c =? 46) = true -> deny_member deny c = false).
+Proof. exact valid_deny_facts. Qed.
+Check C10_valid_deny : forall deny, valid_deny deny ->
+  (forall b, is_upper b = true -> deny_member deny b = true) /\
+  (forall c, is_lower c || is_digit c || (c =? 45) || (c =? 46) = true -> deny_member deny c = false).
+Print Assumptions C10_valid_deny.
+
+(* has_punycode_prefix accepts exactly the sixteen spellings of xn-- on ASCII text (the premise XnPrefixSpec of
+   C11_redisc, now a theorem) *)
+Theorem C10_xn_prefix : forall ascii, Forall (fun b => b < 128) ascii -> has_punycode_prefix ascii = true ->
+  exists a b r, ascii = a :: b :: 45 :: 45 :: r /\ (a = 120 \/ a = 88) /\ (b = 110 \/ b = 78).
+Proof. exact xn_prefix_spec. Qed.
+Check C10_xn_prefix : forall ascii, Forall (fun b => b < 128) ascii -> has_punycode_prefix ascii = true ->
+  exists a b r, ascii = a :: b :: 45 :: 45 :: r /\ (a = 120 \/ a = 88) /\ (b = 110 \/ b = 78).
+Print Assumptions C10_xn_prefix.
+
+(* the invariant behind C10_ascii, for use by C11 / C12: what the fail-fast process_inner returns *)
+Theorem C10_inner_invariant : forall A cfg deny, DenyUpper deny -> LdhFree deny -> forall d, bytes d ->
+  forall hy ptu b he db ap, NvNoTrunc A ->
+  process_inner A cfg true hy deny d = IRes ptu b he db ap ->
+  IRes ptu b he db ap = I_EXIT \/ InnerInv deny d ptu db ap.
+Proof. exact process_inner_ff. Qed.
+Check C10_inner_invariant : forall A cfg deny, DenyUpper deny -> LdhFree deny -> forall d, bytes d ->
+  forall hy ptu b he db ap, NvNoTrunc A ->
+  process_inner A cfg true hy deny d = IRes ptu b he db ap ->
+  IRes ptu b he db ap = I_EXIT \/ InnerInv deny d ptu db ap.
+Print Assumptions C10_inner_invariant.
 
 (* the built-in deny lists contain the upper-case letters (regenerated masks) *)
 Theorem C10_deny_upper : DenyUpper DENY_EMPTY /\ DenyUpper DENY_STD3 /\ DenyUpper DENY_URL.
@@ -94,7 +206,18 @@ Check C10_masks :
 Print Assumptions C10_masks.
 
 Example C10_premises_hold :
+  NvNoTrunc toy /\ valid_deny DENY_URL /\ bytes [65; 98; 46; 99] /\
   to_ascii toy true [65; 98; 46; 99] DENY_URL HAllow DVerify = Ok (false, [97; 98; 46; 99]) /\
   to_ascii toy true [97; 98; 46; 99; 46] DENY_URL HAllow DVerify = Err /\
   to_ascii toy true [97; 98; 46; 99; 46] DENY_URL HAllow DVerifyAllowRootDot = Ok (true, [97; 98; 46; 99; 46]).
-Proof. vm_compute. repeat split; reflexivity. Qed.
+Proof.
+  split; [exact toy_notrunc|]. split; [right; exists T_IDNA_URL_GLYPHLESS, T_IDNA_URL_LIST; reflexivity|].
+  split; [repeat constructor; unfold is_byte; lia|]. vm_compute. repeat split; reflexivity.
+Qed.
+
+Example C10_config_premises_hold :
+  usv_list [65; 223; 46; 99] /\
+  config_to_ascii toy true {| use_std3_ascii_rules := true; transitional_processing := true;
+                              cfg_verify_dns_length := true; cfg_check_hyphens := true |} [65; 223; 46; 99]
+  = Ok [97; 115; 115; 46; 99].
+Proof. split; [repeat constructor; unfold is_usv; lia|vm_compute; reflexivity]. Qed.
